@@ -132,6 +132,8 @@ func runPolScenario(t *testing.T, sc polScen, K int) (evs []Ev, crash string) {
 						return nil, fmt.Errorf("transport: handshake failed: %w", &tls.ECHRejectionError{RetryConfigList: bytes.Clone(polLists["R1"])})
 					}
 					return nil, &tls.ECHRejectionError{RetryConfigList: bytes.Clone(polLists["R1"])}
+				case "rejSame": // retry configs identical to the list just used (nil when there was none)
+					return nil, &tls.ECHRejectionError{RetryConfigList: bytes.Clone(tc.EncryptedClientHelloConfigList)}
 				case "rejR2":
 					return nil, &tls.ECHRejectionError{RetryConfigList: bytes.Clone(polLists["R2"])}
 				}
